@@ -69,8 +69,57 @@ def wf(cfg):
             and 0 <= F(cfg["qMax"]) and not (cfg["mode"] == "survival" and F(cfg.get("remSurv", "0")) > 0))
 
 
+def system_case(case):
+    """A real sequential run of a built system whose battery bus has a transformer that fails by itself (drawn inside the
+    increment, not injected): in every increment in which the transformer is failed the battery's stored energy must not move."""
+    import contextlib, io
+    import numpy as np
+    from relsad.simulation import Simulation
+    from relsad.Time import Time, TimeStamp, TimeUnit
+    from . import net, acct
+    viols = []
+    n = case["n_inc"]
+    ps = net.build(dict(case["spec"], exact=False, nprof=n))
+    for l in ps.lines:
+        l.fail_rate_per_year = case["line_rate"]
+        l.repair_time_dist = net.FixedDist(2.0)
+    for bat in ps.batteries:
+        bat.bus.fail_rate_per_year = case["trafo_rate"]
+        bat.bus.repair_time_dist = net.FixedDist(case["rep"])
+    sim = Simulation(ps, random_seed=case["seed"])
+    drawn, start = {}, {}
+    stat = {"fail": 0, "move": 0, "k": 0}
+    for bat in ps.batteries:
+        # the start level of a microgrid outage is drawn at random whatever the battery's state: not an exchange; the level drawn
+        # is the reference from then on
+        def draw(_b=bat, _orig=bat.draw_SOC_state):
+            _orig()
+            drawn[_b.name] = float(_b.E_battery)
+        bat.draw_SOC_state = draw
+    def close_increment(ps):
+        for b in ps.batteries:
+            if b.name in start:
+                e0 = drawn.get(b.name, start[b.name]); e1 = float(b.E_battery)
+                stat["fail"] += bool(b.bus.trafo_failed); stat["move"] += (e1 != e0)
+                if b.bus.trafo_failed and abs(e1 - e0) > 1e-12:
+                    viols.append(("battery.inactive-in-system", f"increment {stat['k']}: the transformer of the bus of battery {b.name} was failed, yet its stored energy went from {e0} to {e1} MWh (state {b.state.name})"))
+            start[b.name] = float(b.E_battery)
+        drawn.clear()
+        stat["k"] += 1
+    def cb(ps, prev_time, curr_time):
+        close_increment(ps)
+    with contextlib.redirect_stdout(io.StringIO()):
+        sim.run_sequential(start_time=TimeStamp(), stop_time=TimeStamp(hour=n), time_step=Time(1, TimeUnit.HOUR), time_unit=TimeUnit.HOUR,
+                           callback=cb, save_dir=acct.tmpdir("c11_sys"), save_flag=False)
+    close_increment(ps)
+    nfail, nmove = stat["fail"], stat["move"]
+    return dict(ops=[], impl=[], viols=viols[:3], nontrivial=("system", min(nfail, 6), min(nmove, 6)) if nfail and nmove else None, tag="system")
+
+
 def handler(case):
     from relsad.Time import Time, TimeUnit
+    if case.get("kind") == "system":
+        return system_case(case)
     cfg = case["cfg"]
     F = Fraction
     ops, impl, viols = [], [], []
@@ -196,6 +245,17 @@ def gen(rng, n):
         cfg = gen_cfg(rng, well)
         reqs = [gen_req(rng, cfg) for _ in range(rng.randint(1, 12 if k % 5 else 50))]
         cases.append({"cfg": cfg, "reqs": reqs})
+    from . import net
+    for k in range(max(4, n // 60)):
+        # the battery inside a running system: its bus's transformer fails by itself and comes back several times
+        spec = net.rand_feeder_spec(rng, max_lines=4, ctrl="manual", allow_tie=False, allow_mg=True)
+        while not spec.get("mg"):
+            spec = net.rand_feeder_spec(rng, max_lines=4, ctrl="manual", allow_tie=False, allow_mg=True)
+        spec["mg"]["mode"] = rng.choice(["full", "limited", "survival"])
+        spec["mg"]["battery"] = {"p": str(rng.choice([Fraction(1, 5), Fraction(1, 10)])), "q": "1/5", "e": str(rng.choice([6, 8])), "smin": "1/10", "smax": "1", "eta": str(rng.choice([Fraction(1), Fraction(19, 20)])),
+                                 "soc_start": str(rng.choice([Fraction(1, 5), Fraction(1, 2)]))}
+        cases.append({"kind": "system", "spec": spec, "n_inc": rng.choice([12, 16]), "seed": rng.randint(0, 10 ** 6),
+                      "trafo_rate": rng.choice([1e9, 3000.0, 1e9]), "rep": rng.choice([2.0, 3.0]), "line_rate": rng.choice([0.0, 300.0])})
     return cases
 
 
@@ -204,6 +264,7 @@ def run(res):
     n = 250 if res.tier == "quick" else 4000
     res.rule = ("request sequences (1-50 requests) on generated batteries: 80% well-formed, 20% outside WF (correspondence only); "
                 "requests at/around ratings, both signs, -INF, zero step, transformer outages, first-increment draws; "
+                "system: real sequential runs (12-16 increments) of built systems whose battery bus's transformer fails by itself (drawn inside the increment) and comes back several times: stored energy must not move in an increment in which the transformer is failed (the random start level of a microgrid outage is the reference when drawn); "
                 "non-trivial/distinct = distinct set of (sign p, sign q, outage, drew, pprod>0, qprod>0, pload>0, hit SOC_max, hit SOC_min, INF) signatures per sequence")
     run_cases(res, gen(rng, n), handler)
     known_witnesses(res)
